@@ -45,7 +45,7 @@ PLAIN = {"numeric", "array", "loop"}
 
 def canon(v, loop_vars=()):
     try:
-        return ioir.val_json(v, loop_vars=loop_vars)
+        return ioir.strip_val(ioir.val_json(v, loop_vars=loop_vars))
     except ioir.Unrep:
         return {"repr": [type(v).__name__, repr(v)]}
 
@@ -102,7 +102,7 @@ def diff_programs(p, p2, ir, spec):
         for j, (a, b) in enumerate(zip(f1["pars"], f2["pars"])):
             if a != b:
                 spars = sop.get("pars", [])
-                cause = ioir.par_kind(spars[j]) if j < len(spars) else "default"
+                cause = ioir.par_kind(spars[j]) if j < len(spars) else ("string" if "str" in a else "default")
                 if sop.get("dagger") and j == 0 and cause == "loop":
                     cause = "loopexpr"          # the negated loop variable is an expression
                 how = "value-changed" if kind_of_value(a) == kind_of_value(b) else "reloads-as-" + kind_of_value(b)
@@ -118,6 +118,11 @@ def diff_programs(p, p2, ir, spec):
     if ir != "gencode" and p.backend_options.get("cutoff_dim") != p2.backend_options.get("cutoff_dim"):
         out.append((f"{tag}:option:cutoff_dim{notarget}",
                     f"cutoff_dim {p.backend_options.get('cutoff_dim')} became {p2.backend_options.get('cutoff_dim')}"))
+    if ir != "gencode":
+        other = lambda q: ({k: v for k, v in q.run_options.items() if k != "shots"},
+                           {k: v for k, v in q.backend_options.items() if k != "cutoff_dim"})
+        if other(p) != other(p2):
+            out.append((f"{tag}:option:other{notarget}", f"run/backend options {other(p)} became {other(p2)}"))
     if p.name is not None and ir != "gencode" and str(p.name) != str(p2.name):
         out.append((f"{tag}:name", f"name {p.name!r} became {p2.name!r}"))
     used = max(max(r.ind for r in c.reg) for c in p.circuit) + 1
@@ -227,20 +232,31 @@ def states_differ(sf, s1, s2):
 def snapshot(p):
     from strawberryfields.tdm import TDMProgram
     lv = list(p.loop_vars) if isinstance(p, TDMProgram) else []
-    return [cmd_fields(c, lv, False) for c in p.circuit], p.target, dict(p.run_options), dict(p.backend_options)
+    held = [[ioir.current_value(x) if hasattr(x, "free_symbols") else None for x in c.op.p] for c in p.circuit]
+    return [cmd_fields(c, lv, False) for c in p.circuit], held, p.target, dict(p.run_options), dict(p.backend_options)
 
 
 def oracle_spec(ctx, sf, spec, via="text", check_state=True, check_code=True):
+    from strawberryfields.io import to_blackbird, to_xir
     rp = dict(kind="spec", spec=spec, via=via)
     tdm = bool(spec.get("tdm"))
     for ir in ("blackbird", "xir"):
         tag = ir + ("-tdm" if tdm else "")
         p = ioir.build(spec)
         before = snapshot(p)
+        try:
+            (to_blackbird(p) if ir == "blackbird" else to_xir(p))
+        except Exception:  # noqa: BLE001
+            pass
+        if snapshot(p) != before:
+            ctx.fail(f"{tag}:writer-mutates-program", f"{ir} writer changed the program it converts: {spec['name']}", rp)
+            p = ioir.build(spec)
         stage, res = roundtrip(sf, p, ir, via)
         ctx.oracle_cases += 1
         if snapshot(p) != before:
-            ctx.fail(f"{tag}:writer-mutates-program", f"{ir} writer changed the program it converts: {spec['name']}", rp)
+            free = ":free-parameter-values" if any(ioir.par_kind(x) == "free" for o in spec["ops"] for x in o.get("pars", [])) else ""
+            ctx.fail(f"{tag}:load-changes-the-saved-program{free}",
+                     f"loading the {ir} text changed the program that was saved: {spec['name']}", rp)
             p = ioir.build(spec)
         if stage != "ok":
             exc = type(res).__name__
@@ -330,18 +346,22 @@ def oracle_pi(ctx, sf, value):
 def expressible(spec, ir):
     """the hypotheses of the round-trip theorems, on a spec"""
     for o in spec["ops"]:
-        meas = "Measure" in o["cls"]
         for j, x in enumerate(o.get("pars", [])):
             k = ioir.par_kind(x)
-            ok = k in ("numeric", "array") or (k == "loop" and not (o.get("dagger") and j == 0 and ir == "blackbird")) \
-                or (k == "measured" and ir == "blackbird" and not meas)   # (measured-fn: Blackbird cannot parse functions)
+            ok = k in ("numeric", "array", "loop", "loopexpr", "free", "measured") or (k == "measured-fn" and ir == "xir") \
+                or (k == "measured-negfn" and False) \
+                or (k == "array1d" and ir == "xir")
             if not ok:
                 return False
-        if o.get("kw") or o["cls"] in ("Fouriergate", "Catstate"):
+        if o.get("kw") or o["cls"] in ("Catstate", "BipartiteGraphEmbed"):
             return False
         if o.get("dagger") and ir == "blackbird" and o["cls"] not in ioir.NEG_INVERTS:
             return False
     if ir == "blackbird" and spec.get("target") is None and (spec.get("shots") is not None or spec.get("cutoff") is not None):
+        return False
+    if spec.get("run_extra") or spec.get("backend_extra"):
+        return False
+    if ir == "blackbird" and spec.get("tdm") and len(spec["tdm"]["N"]) > 1:
         return False
     return True
 
@@ -352,6 +372,7 @@ def corr_spec(ctx, sf, spec, reqs, pending):
     import xir
     from strawberryfields.io import to_blackbird, to_xir, to_program
     case = dict(spec=spec)
+    kloop = len(spec["tdm"]["params"]) if spec.get("tdm") else 0
     try:
         pj = ioir.prog_json(ioir.build(spec))
     except ioir.Unrep:
@@ -379,7 +400,8 @@ def corr_spec(ctx, sf, spec, reqs, pending):
         except Exception as e:  # noqa: BLE001
             real = ioir.err_json(e)
         if real is not None:
-            reqs.append(dict(op="io.fromBB", bb=bbj)); pending.append(("toProgramBB vs to_program(blackbird)", case, real))
+            reqs.append(dict(op="io.fromBB", bb=bbj, parse=ioir.parse_table(bbj, True, kloop)))
+            pending.append(("toProgramBB vs to_program(blackbird)", case, real))
         # ---- text layer (hypothesis of the theorems)
         if expressible(spec, "blackbird"):
             try:
@@ -387,7 +409,8 @@ def corr_spec(ctx, sf, spec, reqs, pending):
                 real2 = ioir.bb_json(bb2)
                 reqs.append(dict(op="io.reparseBB", bb=bbj)); pending.append(("reparseBB vs blackbird text layer", case, real2))
                 real3 = {"ok": ioir.prog_json(to_program(bb2))}
-                reqs.append(dict(op="io.fromBB", bb=real2)); pending.append(("toProgramBB vs to_program(blackbird text)", case, real3))
+                reqs.append(dict(op="io.fromBB", bb=real2, parse=ioir.parse_table(real2, True, kloop)))
+                pending.append(("toProgramBB vs to_program(blackbird text)", case, real3))
             except Exception as e:  # noqa: BLE001
                 ctx.disagree("blackbird text layer raises on an expressible program", case, "identity", repr(e)[:200])
     # ---- XIR writer
@@ -404,14 +427,19 @@ def corr_spec(ctx, sf, spec, reqs, pending):
     except Exception as e:  # noqa: BLE001
         real = ioir.err_json(e)
     if real is not None and readers:
-        reqs.append(dict(op="io.fromXIR", xir=xj)); pending.append(("toProgramXIR vs to_program(xir)", case, real))
+        reqs.append(dict(op="io.fromXIR", xir=xj, parse=ioir.parse_table(xj, False, kloop)))
+        pending.append(("toProgramXIR vs to_program(xir)", case, real))
     if expressible(spec, "xir"):
         try:
             x2 = xir.parse_script(to_xir(ioir.build(spec)).serialize())
             xj2 = ioir.xir_json(x2)
             ctx.corr_cases += 1
-            if xj2 != xj:
+            nospace = lambda j: json.loads(json.dumps(j), object_hook=lambda d: {"str": d["str"].replace(" ", "")} if set(d) == {"str"} else d)
+            if nospace(xj2) != nospace(xj):     # the XIR printer re-spaces expression strings
                 ctx.disagree("XIR text layer is not the identity on an expressible program", case, xj, xj2)
+            real3 = {"ok": ioir.prog_json(to_program(x2))}
+            reqs.append(dict(op="io.fromXIR", xir=xj2, parse=ioir.parse_table(xj2, False, kloop)))
+            pending.append(("toProgramXIR vs to_program(xir text)", case, real3))
         except Exception as e:  # noqa: BLE001
             ctx.disagree("XIR text layer raises on an expressible program", case, "identity", repr(e)[:200])
 
@@ -456,6 +484,7 @@ PLANS = [  # (features, relative weight)
     (("kwargs", "array"), 1),
     (("fourier", "dagger", "mz"), 1),
     (("array1d", "string"), 1),
+    (("dagger", "options", "extra_opts"), 1),
 ]
 TDM_PLANS = [
     (("dagger", "options", "select"), 3),
@@ -504,6 +533,11 @@ def run(ctx, sf):
             ctx.count("prog:" + "+".join(feats), spec, nontrivial(spec), sample=spec)
             oracle_spec(ctx, sf, spec, via="file" if idx % 5 == 0 else "text")
             corr_spec(ctx, sf, spec, reqs, pending)
+    for _ in range(ctx.n(40, 500)):
+        spec = ioir.rand_history_spec(rng, idx); idx += 1
+        ctx.count("history:" + "+".join(sorted(spec["history"])), spec, True, sample=spec)
+        oracle_spec(ctx, sf, spec, via="text", check_state=False, check_code=False)
+        corr_spec(ctx, sf, spec, reqs, pending)
     total_t = ctx.n(90, 2500)
     wsum = sum(w for _, w in TDM_PLANS)
     for feats, w in TDM_PLANS:
